@@ -91,7 +91,8 @@ def c01_offenders(table):
             out.append(("C01_memcmp_hint", f"rlbox::memcmp over sandbox memory yields {WNAME[res[0]]}, not an int hint", r))
         if name in CAV and any(o[0] in (W["bhint"], W["ihint"]) for o in ops):
             out.append(("C01_hint_not_verifiable", f"`{name}` compiles on a hint", r))
-        if any(o[0] == W["opaque"] for o in ops) and name not in OPAQUE_OK:
+        opaque_copy = name == "bin=" and all(o[0] == W["opaque"] for o in ops) and res[0] == W["opaque"]     # copying an opaque into an opaque
+        if any(o[0] == W["opaque"] for o in ops) and name not in OPAQUE_OK and not opaque_copy:
             out.append(("C01_opaque_inert", f"`{name}` compiles on a tainted_opaque operand", r))
         if name in RAW:
             out.append(("C01_no_raw_access", f"raw storage accessor `{name}` is reachable from application code", r))
